@@ -154,11 +154,46 @@ func main() {
 			defer wg.Done()
 			srv := newServer()
 			for e := range ch {
-				var evals, nontriv, amb, validN, invalidN int64
+				var evals, nontriv, amb, validN, invalidN, derived int64
 				rec := pairRec{ID: e.ID, Schema: e.Schema}
 				texts := pool
 				if e.Kind != "body" {
 					texts = paramTexts
+				}
+				// schema-directed candidates (bounds, lengths, counts, multiples, member variations) on top of the universal pool
+				have := map[string]bool{}
+				for _, t := range texts {
+					have[t] = true
+				}
+				texts = append([]string{}, texts...)
+				for _, c := range vd.Candidates(e.Schema, 4) {
+					var t string
+					if e.Kind == "body" {
+						b, err := json.Marshal(c)
+						if err != nil {
+							continue
+						}
+						t = string(b)
+					} else {
+						switch x := c.(type) {
+						case json.Number:
+							t = string(x)
+						case string:
+							t = x
+						case bool:
+							t = strconv.FormatBool(x)
+						default:
+							continue
+						}
+						if t == "" || strings.ContainsAny(t, "\n\r") {
+							continue
+						}
+					}
+					if !have[t] {
+						have[t] = true
+						texts = append(texts, t)
+						derived++
+					}
 				}
 				if *onlyInst != "" {
 					texts = []string{*onlyInst}
@@ -250,6 +285,7 @@ func main() {
 				drv.Eval(evals)
 				drv.NontrivialN(nontriv)
 				drv.Stat("ambiguous_pairs_outside_oracle", amb)
+				drv.Stat("schema_directed_instances", derived)
 				drv.Stat("pairs_reference_valid", validN)
 				drv.Stat("pairs_reference_invalid", invalidN)
 				drv.Stat(e.Kind+"_operations", 1)
